@@ -234,6 +234,18 @@ def run(pid, tier):
             chk.model_violation("MCMonorail", r2)
         vlib.require_ok(r2, "MCMonorail")
         chk.add_model("MCMonorail/Monorail", r2, "2 invocations, 2 paths, N=2, 2 runs, 2 commits, 2 edits")
+        # for ANY number of contenders and APIs: TLAPS proof of pairwise mutual exclusion (inductive invariant HolderInv)
+        import subprocess, shutil, re as _re
+        pr = subprocess.run(["timeout", "900", "tlapm", "--threads", "8", "-I", vlib.SPEC, "LockProof.tla"],
+                            cwd=os.path.join(vlib.SPEC, "proofs"), stdout=subprocess.PIPE, stderr=subprocess.STDOUT, text=True)
+        shutil.rmtree(os.path.join(vlib.SPEC, "proofs", ".tlacache"), ignore_errors=True)
+        m = _re.search(r"All (\d+) obligations proved", pr.stdout)
+        if m:
+            chk.cov["tlaps_obligations_proved"] = int(m.group(1))
+        elif "obligations failed" in pr.stdout or "failed" in pr.stdout:
+            raise vlib.ToolError("TLAPS: LockProof no longer proves: " + pr.stdout[-400:])
+        else:
+            chk.notes.append({"tlaps": "could not run: " + pr.stdout[-200:]})
     # every holder API x every way of ending x contenders covering every API
     specs = []
     for h in APIS:
